@@ -381,7 +381,7 @@ static std::string handle(const std::string& line)
             std::string base = "http://127.0.0.1:" + std::to_string(port);
             std::atomic<int> s1 { 0 }, s2 { 0 };
             auto second = [&] {
-                client.get(base + "/next").timeout(std::chrono::milliseconds(4000)).send().then([&](Http::Response) { s2 = 1; }, [&](std::exception_ptr) { s2 = 2; });
+                client.get(base + "/next").timeout(std::chrono::milliseconds(20000)).send().then([&](Http::Response) { s2 = 1; }, [&](std::exception_ptr) { s2 = 2; });
             };
             if (mode == 's')
             {
@@ -415,7 +415,7 @@ static std::string handle(const std::string& line)
                 std::this_thread::sleep_for(std::chrono::microseconds(500));
             if (mode == 'n')
                 second(); // after the time-out: a new connection
-            for (int k = 0; k < 30000 && s2.load() == 0; ++k)
+            for (int k = 0; k < 50000 && s2.load() == 0; ++k)
                 std::this_thread::sleep_for(std::chrono::microseconds(500));
             if (mode == 'e')
                 for (int k = 0; k < 10000 && body_ok.load() < 0; ++k)
